@@ -40,7 +40,21 @@ def pre_exec(server): _ev("pre_exec")
 '''
 
 
-def run_lifecycle(wk):
+DEFAULT_SCRIPT = (("req", 3), ("ttin",), ("ttou",), ("hup", 3), ("req", 3), ("kill",), ("hang",), ("quit",), ("req", 1))
+
+
+def random_script(rng, n=8):
+    ops = []
+    for _ in range(n):
+        ops.append(rng.choice([("req", rng.randint(1, 4)), ("ttin",), ("ttou",), ("hup", rng.randint(1, 3)), ("kill",), ("quit",),
+                               ("req", 1), ("kill",)]))
+    return tuple(ops)
+
+
+def run_lifecycle(wk, script=DEFAULT_SCRIPT):
+    """operator actions on a real server whose hooks log themselves: ("req", n) requests, ("ttin",), ("ttou",),
+    ("hup", k) reload with k workers configured, ("kill",) SIGKILL to a worker, ("quit",) SIGQUIT to a worker,
+    ("hang",) a request that never returns (the watchdog aborts the worker); TERM at the end"""
     s = rp.Server(wk, workers=2, threads=2 if wk == "gthread" else None, name="life",
                   args=["--timeout", "3", "--graceful-timeout", "3", "--keep-alive", "1"])
     i = s.cmd.index("-w")
@@ -66,40 +80,51 @@ def run_lifecycle(wk):
             time.sleep(0.1)
         return [p for p in s.workers() if rp.proc_state(p) not in (None, "Z")]
     halt_at = None
+    lines = []
     try:
         s.start()
         s.wait_booted(2)
-        for _ in range(3):
-            s.get("/pid")
-        s.signal(signal.SIGTTIN)
-        settle(3)
-        s.signal(signal.SIGTTOU)
-        settle(2)
-        s.rewrite_config(hooks + "workers = 3\n")
-        s.signal(signal.SIGHUP)
-        time.sleep(1.5)
-        live = settle(3)
-        for _ in range(3):
-            s.get("/pid")
-        if live:
-            killed_pids.append(live[0])
-            os.kill(live[0], signal.SIGKILL)
-            time.sleep(0.5)
-            live = settle(3)
-        # a request that never returns: the watchdog aborts the worker (classes whose heartbeat stops)
-        try:
-            c = s.connect(timeout=8)
-            c.sendall(b"GET /hang HTTP/1.1\r\nHost: h\r\n\r\n")
-            time.sleep(5.5)
-            c.close()
-        except OSError:
-            pass
-        live = settle(3)
-        if live:
-            os.kill(live[-1], signal.SIGQUIT)
-            time.sleep(0.8)
-            settle(3)
-        s.get("/pid")
+        n = 2
+        for op in script:
+            if op[0] == "req":
+                for _ in range(op[1]):
+                    try:
+                        s.get("/pid")
+                    except OSError:
+                        pass
+            elif op[0] == "ttin":
+                s.signal(signal.SIGTTIN)
+                n += 1
+                settle(n)
+            elif op[0] == "ttou":
+                s.signal(signal.SIGTTOU)
+                n = max(1, n - 1)
+                time.sleep(0.3)
+                settle(n)
+            elif op[0] == "hup":
+                s.rewrite_config(hooks + "workers = %d\n" % op[1])
+                s.signal(signal.SIGHUP)
+                n = op[1]
+                time.sleep(1.5)
+                settle(n)
+            elif op[0] in ("kill", "quit"):
+                live = settle(n)
+                if live:
+                    if op[0] == "kill":
+                        killed_pids.append(live[0])
+                    os.kill(live[0] if op[0] == "kill" else live[-1], signal.SIGKILL if op[0] == "kill" else signal.SIGQUIT)
+                    time.sleep(0.6)
+                    settle(n)
+            elif op[0] == "hang":
+                # a request that never returns: the watchdog aborts the worker (classes whose heartbeat stops)
+                try:
+                    c = s.connect(timeout=8)
+                    c.sendall(b"GET /hang HTTP/1.1\r\nHost: h\r\n\r\n")
+                    time.sleep(5.5)
+                    c.close()
+                except OSError:
+                    pass
+                settle(n)
         time.sleep(0.3)
         halt_at = nlines()
         s.signal(signal.SIGTERM)
@@ -122,7 +147,7 @@ def run_lifecycle(wk):
     if halt_at is not None and halt_at >= len(lines):
         ev.append({"h": "halt", "a": 0, "b": 0})
     return {"wk": wk, "killed": [pid_age[p] for p in killed_pids if p in pid_age], "ev": ev}, \
-        {"wk": wk, "hooks_logged": len(lines), "kinds": sorted({ln[0] for ln in lines})}
+        {"wk": wk, "script": [list(o) for o in script], "hooks_logged": len(lines), "kinds": sorted({ln[0] for ln in lines})}
 
 
 def design(ctx):
@@ -177,8 +202,10 @@ def inductive(ctx):
 
 def follow(ctx):
     from props.reload_real import _parallel
-    plan = ["sync", "gthread"] if ctx.quick else ["sync", "gthread", "gevent", "eventlet"]
-    results = _parallel(plan, lambda wk, i: run_lifecycle(wk), par=4)
+    plan = [("sync", DEFAULT_SCRIPT), ("gthread", DEFAULT_SCRIPT), ("sync", random_script(ctx.rng, 6))] if ctx.quick else \
+        [(wk, DEFAULT_SCRIPT) for wk in ("sync", "gthread", "gevent", "eventlet")] + \
+        [(wk, random_script(ctx.rng)) for wk in ("sync", "gthread", "gevent", "eventlet") for _ in range(4)]
+    results = _parallel(plan, lambda a, i: run_lifecycle(a[0], a[1]), par=6)
     n = 0
     for (t, m) in results:
         threads = {"sync": 1, "gthread": 2}.get(t["wk"], 1000)
@@ -191,7 +218,7 @@ def follow(ctx):
         n += m["hooks_logged"]
         v, stepn = verdicts[0]
         if v != "ok":
-            ctx.note_drift("server hooks (%s): %s at event %d: ...%s" % (t["wk"], v, stepn, t["ev"][max(0, stepn - 4):stepn]))
+            ctx.note_drift("server hooks (%s, %s): %s at event %d: ...%s" % (t["wk"], m["script"], v, stepn, t["ev"][max(0, stepn - 4):stepn]))
     ctx.coverage["hook_kinds_followed"] = sorted({k for _, m in results for k in m["kinds"]})
     ctx.coverage["hook_kinds_never_logged"] = sorted({"pre_exec"} - {k for _, m in results for k in m["kinds"]})
     ctx.coverage["hook_log_runs"] = len(results)
